@@ -28,7 +28,7 @@ CONSTANTS
 
 -----------------------------------------------------------------------------
 (* What the parser records *)
-IsTrailer(nd) == nd.k \in {"text", "expr", "void", "el", "gocode", "gocodeml"}
+IsTrailer(nd) == nd.k \in {"text", "expr", "void", "el", "gocode", "gocodei", "gocodeml"}
 
 \* a text whose horizontal trailing space is kept inside its value
 HasSp(nd) == nd.k = "text" /\ (IF "sp" \in DOMAIN nd THEN nd.sp ELSE nd.tr = "h")
@@ -69,7 +69,7 @@ AlwaysBreakAfter(nd) == nd.k = "void" /\ nd.name \in {"br", "hr"}
 (* writeNodes *)
 SetWs(nd, d) ==
     CASE nd.k = "text" -> [k |-> "text", w |-> nd.w, tr |-> d, sp |-> HasSp(nd)]
-      [] nd.k \in {"expr", "void", "el"} -> [nd EXCEPT !.tr = d]
+      [] nd.k \in {"expr", "void", "el", "gocodei"} -> [nd EXCEPT !.tr = d]
       [] nd.k \in {"slot", "hcomment", "mcomment", "raw", "call", "callb"} -> [nd EXCEPT !.after = d]
       [] OTHER -> nd      \* line-start nodes always end their line
 
